@@ -273,10 +273,17 @@ def scalar(ctx):
     rng = ctx.rng
     case = Case(rng)
     vals = rng.normal(size=tuple(case.n)) * 10.0 ** rng.uniform(-15, 9)
+    kwd = {}
+    dt = gen.pick(rng, ["float"] * 5 + ["int", "int32", "bool"])
+    if dt != "float":
+        # whole numbers / flags in an integer- or Boolean-typed field (a material index, a mask)
+        vals = rng.integers(-5, 6, tuple(case.n)).astype(float) if dt != "bool" \
+            else (rng.random(tuple(case.n)) < 0.5).astype(float)
+        kwd["dtype"] = {"int": int, "int32": np.int32, "bool": bool}[dt]
     f = gen.via_history(None, df.Field(case.mesh, nvdim=1, value=vals[..., None], valid=case.valid.copy(),
-                 unit=gen.pick(rng, [None, "A/m"])))
+                 unit=gen.pick(rng, [None, "A/m"]), **kwd))
     fkind, ff, fhid = case.filter(rng)
-    info = {"plot": "scalar", "filter": fkind, **case.describe()}
+    info = {"plot": "scalar", "filter": fkind, "dtype": dt, **case.describe()}
     guard = Unchanged(ctx, f, [ff] if ff is not None else [], info)
     fig, ax = plt.subplots()
     CALLS.clear()
@@ -319,6 +326,10 @@ def make_vector(rng, case, nvdim):
     Returns (field, array, labels, ix, iy, iother): component indices along axis 0 / 1."""
     n = tuple(case.n)
     arr = rng.normal(size=(*n, nvdim)) * 10.0 ** rng.uniform(-15, 9)
+    kwd = {}
+    if rng.random() < 0.2:  # whole numbers in an integer-typed vector field
+        arr = rng.integers(-5, 6, (*n, nvdim)).astype(float)
+        kwd["dtype"] = gen.pick(rng, [int, np.int32])
     pools = {2: [None, ["a", "b"], ["mx", "my"], ["y", "x"]],
              3: [None, ["a", "b", "c"], ["mx", "my", "mz"], ["z", "x", "y"]]}
     vdims = gen.pick(rng, pools[nvdim])
@@ -332,7 +343,7 @@ def make_vector(rng, case, nvdim):
         mapping[labels[iother]] = gen.pick(rng, [None, "w_out"])
     mapping = gen.shuffle_keys(rng, {lab: mapping[lab] for lab in labels})
     f = gen.via_history(None, df.Field(case.mesh, nvdim=nvdim, value=arr, valid=case.valid.copy(), vdims=vdims,
-                 vdim_mapping=mapping))
+                 vdim_mapping=mapping, **kwd))
     mclass = "identity" if (ix, iy) == (0, 1) else "permuted"
     return f, arr, labels, ix, iy, iother, mclass
 
